@@ -137,7 +137,7 @@ impl PublicKey {
 //@end
 //@fn iroh-base/src/key.rs PublicKey::from_bytes props=C02 ret=r
 //@| ensures r is Ok <==> valid_point(bytes@), r matches Ok(k) ==> k.wf() && k.0.0@ == bytes@
-//@rwx R1 1
+//@rwx R1 *
 //@- \.map_err\(\|_\| e!
 //@+ .map_err(|_w| e!
 //@end
@@ -148,7 +148,7 @@ impl PublicKey {
 //@fn iroh-base/src/key.rs PublicKey::verify props=C02 ret=r
 //@| requires self.wf()
 //@| ensures r is Ok <==> ed_valid(self.0.0@, message@, signature.0.b@)
-//@rwx R1 1
+//@rwx R1 *
 //@- \.map_err\(\|_\| SignatureError::new\(\)\)
 //@+ .map_err(|_w| SignatureError::new())
 //@end
@@ -161,7 +161,7 @@ impl PublicKey {
 //@rw D5 1
 //@- Result<Self, Self::Error>
 //@+ Result<Self, KeyParsingError>
-//@rwx R1 1
+//@rwx R1 *
 //@- \.map_err\(\|_\| e!
 //@+ .map_err(|_w| e!
 //@end
@@ -195,7 +195,7 @@ impl PublicKey {
 //@rw R9 1
 //@- .decode(s.as_bytes())
 //@+ .decode(str_as_bytes(s))
-//@rwx R1 1
+//@rwx R1 *
 //@- \.map_err\(\|_\| e!
 //@+ .map_err(|_w| e!
 //@rw D5 *
@@ -242,7 +242,7 @@ impl SecretKey {
 //@rwx R12 1
 //@- bytes\s*\.try_into\(\)
 //@+ slice_try_into_arr::<32>(bytes)
-//@rwx R1 1
+//@rwx R1 *
 //@- \.map_err\(\|_\| e!
 //@+ .map_err(|_w| e!
 //@end
@@ -270,7 +270,7 @@ impl Signature {
 //@rw D5 1
 //@- Result<Self, Self::Error>
 //@+ Result<Self, SignatureParsingError>
-//@rwx R1 1
+//@rwx R1 *
 //@- \.map_err\(\|_\| e!
 //@+ .map_err(|_w| e!
 //@end
@@ -332,9 +332,9 @@ pub fn to_ascii_uppercase_bytes(s: &str) -> (r: Vec<u8>) ensures r@.len() == str
 //@| ensures
 //@|     // total: no input makes it panic; Ok only for 64 hex characters or an unpadded base32 string of exactly 32 bytes
 //@|     r is Ok ==> (str_bytes(s@).len() == 64 || data_encoding::decode_len_spec(data_encoding::Kind::Base32NoPad, str_bytes(s@).len() as int) == Some(32int)),
-//@rw R9 1
-//@- s.len() == PublicKey::LENGTH * 2
-//@+ str_byte_len(s) == PublicKey::LENGTH * 2
+//@rwx R9 *
+//@- \bs\.len\(\)
+//@+ str_byte_len(s)
 //@rw R9 1
 //@- .decode_mut(s.as_bytes(), &mut bytes)
 //@+ .decode_mut(str_as_bytes(s), &mut bytes)
@@ -347,7 +347,7 @@ pub fn to_ascii_uppercase_bytes(s: &str) -> (r: Vec<u8>) ensures r@.len() == str
 //@rw R11 1
 //@- data_encoding::BASE32_NOPAD.decode_len(input.len()) == Ok(bytes.len()),
 //@+ data_encoding::BASE32_NOPAD.decode_len_is(input.len(), bytes.len()),
-//@rwx R1 2
+//@rwx R1 *
 //@- \.map_err\(\|_\| e!
 //@+ .map_err(|_w| e!
 //@end
